@@ -50,3 +50,31 @@ impl Inverter {
     }
 }
 } // verus!
+
+verus! {
+#[verifier::external_type_specification]
+#[verifier::reject_recursive_types(A)]
+pub struct ExExtendedGcd<A>(num_integer::ExtendedGcd<A>);
+
+/// Regcd outlining of `Integer::extended_gcd` on i64 (a provided method of a foreign trait). Assumed contract of Euclid's
+/// extended algorithm on non-negative operands (T-dep num-integer): Bezout identity, the result divides both operands,
+/// the first cofactor is bounded by the second operand. Negative operands are outside this contract.
+#[verifier::external_body]
+fn ol_egcd_i64(a: i64, b: i64) -> (e: num_integer::ExtendedGcd<i64>)
+    requires a >= 0, b >= 0,
+    ensures
+        e.gcd >= 0, e.x * a + e.y * b == e.gcd,
+        (a > 0 || b > 0) ==> e.gcd >= 1 && a % e.gcd == 0 && b % e.gcd == 0,
+        -b <= e.x <= b || -1 <= e.x <= 1,
+{ Integer::extended_gcd(&a, &b) }
+
+/// the same on i128
+#[verifier::external_body]
+fn ol_egcd_i128(a: i128, b: i128) -> (e: num_integer::ExtendedGcd<i128>)
+    requires a >= 0, b >= 0,
+    ensures
+        e.gcd >= 0, e.x * a + e.y * b == e.gcd,
+        (a > 0 || b > 0) ==> e.gcd >= 1 && a % e.gcd == 0 && b % e.gcd == 0,
+        -b <= e.x <= b || -1 <= e.x <= 1,
+{ Integer::extended_gcd(&a, &b) }
+} // verus!
